@@ -626,33 +626,33 @@ def _scenarios(tier):
          ("add_user", "u2", False), ("add_user", "a2", True), ("disable", "admin"), ("disable", "u2"), ("disable", "a2"),
          ("enable", "admin"), ("enable", "u2"), ("chpw", "admin", "right"), ("chpw", "admin", "wrong"), ("chpw", "u2", "right"),
          ("chpw", "u2", "wrong"), ("s_power", "off"), ("s_power", "on"), ("local_logout",), ("tick",)],
-        handle_kinds=[], max_handles=3, rto=2, lto=2), 6 if T else 4, 400000 if T else 20000, 420 if T else 40))
+        handle_kinds=[], max_handles=3, rto=2, lto=2), 6 if T else 4, 400000 if T else 20000, 420 if T else 240))
     # B: live sessions - limit, commands over the k-th connection, logoff, time-out, password change, restarts
     out.append((SessionAdapter(
         "sessions",
         [("tick",), ("rlogin", "C", "admin", "right"), ("rlogin", "C2", "u2", "right"), ("rlogin", "C", "u2", "right"),
          ("chpw", "admin", "right"), ("chpw", "u2", "right"), ("rcmd_req", "C"), ("rlogoff_req", "C"),
          ("s_term", "stop"), ("s_term", "start"), ("s_power", "off"), ("s_power", "on")],
-        handle_kinds=["rcmd", "rlogoff"], pre_users=[("u2", False)], max_handles=3), 8 if T else 5, 900000 if T else 30000, 400 if T else 50))
+        handle_kinds=["rcmd", "rlogoff"], pre_users=[("u2", False)], max_handles=3), 8 if T else 5, 900000 if T else 30000, 400 if T else 240))
     # C: the user-session-manager's own login/logout requests next to terminal logins
     out.append((SessionAdapter(
         "usm-requests",
         [("tick",), ("usm_rlogin", "admin", "right", "C"), ("usm_rlogin", "admin", "wrong", "C"), ("rlogin", "C", "admin", "right"),
          ("chpw", "admin", "right"), ("s_power", "off"), ("s_power", "on")],
-        handle_kinds=["usm_rlogout", "rcmd"], max_handles=3), 7 if T else 4, 300000 if T else 15000, 300 if T else 30))
+        handle_kinds=["usm_rlogout", "rcmd"], max_handles=3), 7 if T else 4, 300000 if T else 15000, 300 if T else 240))
     # E: stale handles - the client misses the server's time-out notice (its terminal is stopped, or S is off) and retries later
     out.append((SessionAdapter(
         "stale-handles",
         [("tick",), ("rlogin", "C", "admin", "right"), ("rlogin", "C2", "admin", "right"), ("c_term", "C", "stop"), ("c_term", "C", "start"),
          ("s_term", "stop"), ("s_term", "start"), ("s_power", "off"), ("s_power", "on")],
-        handle_kinds=["rcmd", "rlogoff"], max_handles=2, rto=2, lto=2), 9 if T else 6, 400000 if T else 20000, 400 if T else 40))
+        handle_kinds=["rcmd", "rlogoff"], max_handles=2, rto=2, lto=2), 9 if T else 6, 400000 if T else 20000, 400 if T else 240))
     # G: local and remote time-outs that differ from each other (each kind of session ends after ITS time-out)
     for rto, lto in ((1, 3), (3, 1)):
         out.append((SessionAdapter(
             "timeouts-r%dl%d" % (rto, lto),
             [("tick",), ("rlogin", "C", "admin", "right"), ("local_login", "admin", "right"), ("local_cmd", "admin", "right"),
              ("rcmd_req", "C")],
-            handle_kinds=["rcmd"], max_handles=2, rto=rto, lto=lto), 7 if T else 5, 200000 if T else 20000, 300 if T else 30))
+            handle_kinds=["rcmd"], max_handles=2, rto=rto, lto=lto), 7 if T else 5, 200000 if T else 20000, 300 if T else 240))
     if T:
         # F: S takes one step to shut down and one to boot (NICs go down, BOOTING/SHUTTING_DOWN states are visited)
         out.append((SessionAdapter(
